@@ -46,6 +46,12 @@ CLAIMED = {
          "structure directly (no codec) and calls asn_check_constraints with every interesting error-buffer size; the trace is accepted only if "
          "the verdict equals Valid and the message is bounded, terminated and names a type.",
          "TLA+ constraint semantics + TLC-enumerated single-constraint violations + trace validation"),
+ "C07": ("model_checking", "7 C07",
+         "Codec.tla states the encoder API contract as relations (EncodeCb: a failed callback => -1/EIO, otherwise ret = octets delivered = the "
+         "size every other entry point reports; EncodeBuf: same size for every buffer size, nothing written beyond the buffer, the encoding when it "
+         "fits; Encode to a new buffer: buffer iff success; unvouched structures: -1 with an errno or a consistent encoding; Crash/Timeout events "
+         "have no action). TLC enumerates (type, value | violated value | zero structure) x syntax x buffer size x failing-callback index.",
+         "TLA+ encoder-sink contract + TLC-enumerated sizes / failure indices + trace validation"),
 }
 
 checks = []
